@@ -61,25 +61,55 @@ Proof.
 Qed.
 
 (* ------------------------------------------------------------------ W_pick *)
-Lemma w_pick_spec s w s' : w_pick s w = Some s' ->
-  joined s = false /\ exists wr, nth_error (ws s) w = Some wr /\ wtid wr = None /\
-  ((bwl s = [] /\ s' = s) \/
-   exists b rest, bwl s = b :: rest /\
-     s' = set_bwl (set_ws s (set_nth w {| wtid := Some (fst b); whead := of_tid (fst b) (bwl s);
-                                          wbufs := wbufs wr; wrote := false |} (ws s)))
-                  (not_tid (fst b) (bwl s))).
+Lemma take_kick_spec s s0 : take_kick s = Some s0 ->
+  (s0 = s \/ exists k, s0 = set_kicks s k) /\
+  ((stopped s = true /\ s0 = s) \/ (stopped s = false /\ kicks s = S (kicks s0) /\ s0 = set_kicks s (kicks s0))).
 Proof.
-  unfold w_pick. destruct (joined s); [discriminate|].
-  destruct (nth_error (ws s) w) as [wr|]; [|discriminate].
+  unfold take_kick. destruct (stopped s) eqn:Es.
+  - intro H. injection H as <-. split; [left; reflexivity|left; auto].
+  - destruct (kicks s) as [|k] eqn:Ek; [discriminate|]. intro H. injection H as <-. split; [right; eauto|right; auto].
+Qed.
+
+Lemma inv_set_kicks s k : Inv s -> Inv (set_kicks s k).
+Proof.
+  intro I. assert (Hch : forall t, chain (set_kicks s k) t = chain s t) by reflexivity.
+  destruct (frame_buffers s (set_kicks s k) I Hch eq_refl eq_refl eq_refl eq_refl eq_refl) as (A & B & C).
+  constructor; sp; try assumption; apply I.
+Qed.
+
+Lemma inv_take_kick s s0 : Inv s -> take_kick s = Some s0 -> Inv s0.
+Proof.
+  intros I H. destruct (take_kick_spec s s0 H) as [[->|(k & ->)] _]; [assumption|apply inv_set_kicks; assumption].
+Qed.
+
+(* w_pick = take a kick, then the critical section on the resulting state s0 *)
+Lemma w_pick_spec s w s' : w_pick s w = Some s' ->
+  exists s0, take_kick s = Some s0 /\
+  joined s0 = false /\ exists wr, nth_error (ws s0) w = Some wr /\ wtid wr = None /\
+  ((bwl s0 = [] /\ s' = s0) \/
+   exists b rest, bwl s0 = b :: rest /\
+     s' = set_bwl (set_ws s0 (set_nth w {| wtid := Some (fst b); whead := of_tid (fst b) (bwl s0);
+                                          wbufs := wbufs wr; wrote := false |} (ws s0)))
+                  (not_tid (fst b) (bwl s0))).
+Proof.
+  unfold w_pick. destruct (joined s) eqn:Ej; [discriminate|].
+  destruct (nth_error (ws s) w) as [wr|] eqn:En; [|discriminate].
   destruct (wtid wr) eqn:Ew; [discriminate|].
-  destruct (bwl s) as [|b rest] eqn:Eb; intro H; injection H as <-; (split; [reflexivity|]);
-    exists wr; (split; [reflexivity|]); (split; [assumption|]); [left; auto|right].
+  destruct (take_kick s) as [s0|] eqn:Ek; [|discriminate].
+  assert (F : joined s0 = joined s /\ ws s0 = ws s).
+  { destruct (take_kick_spec s s0 Ek) as [[->|(k & ->)] _]; split; reflexivity. }
+  destruct F as [F1 F2].
+  intro H. exists s0. split; [reflexivity|]. split; [congruence|]. exists wr. split; [rewrite F2; assumption|].
+  split; [assumption|].
+  destruct (bwl s0) as [|b rest] eqn:Eb; injection H as <-; [left; auto|right].
   exists b, rest. split; reflexivity.
 Qed.
 
 Lemma inv_w_pick s s' w : Inv s -> w_pick s w = Some s' -> Inv s'.
 Proof.
-  intros I H. apply w_pick_spec in H. destruct H as (Ej & wr & En & Ew & [[Eb ->]|(b & rest & Eb & ->)]); [exact I|].
+  intros I0 H. apply w_pick_spec in H. destruct H as (s0 & Ek & Ej & wr & En & Ew & H).
+  pose proof (inv_take_kick s s0 I0 Ek) as I. clear I0 Ek. rename s into s_before. rename s0 into s.
+  destruct H as [[Eb ->]|(b & rest & Eb & ->)]; [exact I|].
   destruct (nth_split _ _ _ En) as (l1 & l2 & El & Hlen). subst w.
   assert (Hwr : In wr (ws s)) by (rewrite El; apply in_or_app; right; left; reflexivity).
   destruct (I_idle s I wr Hwr Ew) as (Hh & Hbf & Hwo).
@@ -338,7 +368,7 @@ Lemma record_mmap_fields s b :
   curr (record_mmap s b) = curr s.
 Proof.
   unfold record_mmap, copy_to_buffer. destruct (f_rec (flag s b) && negb (is_nil (data s b))); [|repeat split].
-  destruct (give b (ws s)); repeat split.
+  destruct (give b (ws s)); [|destruct (stopped s) eqn:E]; repeat split; sp; try assumption; reflexivity.
 Qed.
 
 Lemma give_idle b l : forallb idle l = true -> give b l = None.
@@ -400,6 +430,7 @@ Proof.
         -- apply (I_wrote s I w0); [|assumption]. rewrite El. apply in_mid. right. assumption.
     + (* nobody works for t0: buf_write_list *)
       apply give_none in G. fold t0 in G.
+      cut (InvB (set_bwl s1 (bwl s1 ++ [b]))); [intro G2; destruct (stopped s1); exact G2|].
       set (s2 := set_bwl s1 _).
       assert (Hch : forall t, chain s2 t = chain s t).
       { intro t. unfold chain, s2; sp. rewrite Hws, Hbw. change (pend (set_bwl s1 _) t) with (pend s1 t).
@@ -489,7 +520,7 @@ Proof.
   destruct (record_mmap_fields s1 b) as (F1 & F2 & F3 & F4 & F5 & F6 & F7).
   assert (Hws : ws (record_mmap s1 b) = ws s).
   { unfold record_mmap, copy_to_buffer. destruct (_ && _); [|reflexivity].
-    change (ws s1) with (ws s). rewrite (give_idle b (ws s) Hidle). reflexivity. }
+    change (ws s1) with (ws s). rewrite (give_idle b (ws s) Hidle). destruct (stopped s1); reflexivity. }
   apply Inv_intro; unfold curr_l; rewrite ?F1, ?F2, ?F3, ?F4, ?F5, ?F6, ?F7, ?Hws; unfold s1; sp; try congruence; try (apply I).
   - apply (record_mmap_buffers s); try reflexivity; [assumption| |].
     + unfold pend, s1; sp. rewrite Es, Esl. apply of_tid_cons_same. reflexivity.
